@@ -40,7 +40,8 @@ def Fresh {σ} (w : World σ) : Prop :=
   w.drv.targetCid = none ∧ w.drv.extendedFo = true ∧ w.drv.connectionSize = 4000 ∧ w.drv.context.length = 8 ∧
   w.drv.option = 0 ∧
   w.net.target.base.sessions = [] ∧ w.net.target.base.conns = [] ∧ w.net.target.base.log = [] ∧
-  w.net.pending = [] ∧ w.net.sent = [] ∧ w.net.tcpOpen = false
+  w.net.pending = [] ∧ w.net.sent = [] ∧ w.net.tcpOpen = false ∧
+  0 < w.net.target.base.nextSession ∧ w.net.target.base.nextSession < 2 ^ 32 ∧ w.net.target.base.nextCid < 2 ^ 32
 
 /-- the target never had to reject a connected message for lack of a session / open connection -/
 def NoEarlyUnitData (log : List Event) : Prop :=
